@@ -17,17 +17,14 @@ TRUSTED = [
 ]
 
 DEV_CLASSES = {
-    "1": "C13-F1 allOf with a member that has no constraints of its own (e.g. {\"type\":\"string\"}) next to >= 2 constrained members: matchN(len(items), kept) rejects every instance (constraints_combinator.go constraintAllOf; Encode.step_allOf, allOf_unconstrained_member_refuted)",
     "2": "C13-F2 allOf member `false` is dropped (boolean schema has no constraints): the schema accepts instances (decode.go schemaState bool branch; allOf_false_member_refuted)",
     "3": "C13-F3 propertyNames becomes the pattern constraint {[names]: _}, which does not restrict property names (constraints_object.go constraintPropertyNames; propertyNames_refuted)",
     "4": "C13-F4 required name that is not a property is added as name!: _ inside close({...}): additionalProperties:false admits it (constraints_object.go constraintRequired; required_closed_refuted)",
     "5": "C13-F5 prefixItems [a, b, ...] needs every prefix element to be present (constraints_array.go constraintPrefixItems; prefixItems_refuted; also recorded as skips in the vendored test-suite)",
-    "6": "C13-F6 additionalProperties exclusion regexp built from property names skips the empty name / is ^()$ without names (decode.go excludeFields; empty_name_refuted)",
     "7": "C13-F7 matchIf / list.MatchN called with an error value (`false` as if/then/else/contains) fails for every instance",
     "8": "C13-F8 duplicate property names",
     "12": "C13-F13 close({..}) unified with a conjunct that has an open struct alternative ({...} or a literal with `...`): through cue.Value.Unify the closedness is lost (evaluator; e.g. additionalProperties:false next to a hoisted anyOf/allOf/oneOf member or a $ref); schemas of this class are compared but a disagreement is reported as this finding",
     "11": "C13-F11 an error value (`false`, or a subschema no type can satisfy) as a member of a matchN list: correct on its own, but next to a second validator the evaluator rejects list/struct instances (evaluator interaction, observed; schemas of this class are compared but a disagreement is reported as this finding)",
-    "10": "C13-F10 type list containing both \"integer\" and \"number\": the int constraint added for \"integer\" stays, non-integers are rejected (constraints_generic.go constraintType; integer_and_number_refuted)",
     "9": "C13-F9 oneOf whose members have no constraints and disjoint type masks is encoded by the union of the masks; a member `false` counts as its full mask, so oneOf:[false] accepts instances (constraints_combinator.go constraintOneOf; oneOf_false_member_refuted)",
 }
 
